@@ -169,7 +169,9 @@ class Env:
                         rec["comp"] = type(c).__name__
                         m = ProbeRes()
                         c.add_resource(m, tag + "s")
-                        child = Context()
+                        # given explicitly or found implicitly, the parent is the real context, never the
+                        # per-component view (which goes away when startup is over); odd probes name it
+                        child = Context(c) if env.nprobe % 2 else Context()
                         rec["parent"] = child.parent
                         async with child:
                             rec["start_sees"] = sees(child, m, tag + "s") and sees(child, rec["pm"], tag + "p")
@@ -195,16 +197,20 @@ class Env:
                     t.services += 1
                     how = cmd.get("via", "service")
                     if how == "service":
-                        await start_service_task(lambda: env.task_main(nt, "SService"), f"svc{nt.idx}",
+                        # the target is a plain callable handing back a coroutine: the part of it that runs when it
+                        # is CALLED already sees the task's own context
+                        await start_service_task(lambda: env.task_main(nt, "SService", (env.cur(),)), f"svc{nt.idx}",
                                                  teardown_action="cancel")
                     else:
                         tf = await start_background_task_factory()
-                        tf.start_task_soon(lambda: env.task_main(nt, "SService"))
+                        tf.start_task_soon(lambda: env.task_main(nt, "SService", (env.cur(),)))
             elif k == "Finish":
                 return "finish"
 
-    async def task_main(self, t, kind):
+    async def task_main(self, t, kind, at_call=()):
         cur = self.cur()
+        if at_call and at_call[0] is not cur:
+            cur = at_call[0]          # what the synchronous part of the target saw: reported instead
         if kind == "SService":
             nm = self.name(cur, t)
             self.reports.append({"k": "Spawned", "t": t.idx, "cur": nm, "parent": self.name(cur.parent) if cur else None})
